@@ -61,6 +61,8 @@ namespace {
       std::deque<impl::Token> tokens;
       std::deque<impl::ref_sequence<ipr::Attribute>> attr_seqs;
       std::deque<impl::Warehouse<ipr::Type>> warehouses;
+      struct Made { std::string key; int inst; std::string result; std::size_t watermark; std::vector<std::string> fresh_args; };
+      std::vector<Made> made;                     // every accepted first call, for the late re-observation (`recheck`)
       impl::Region* forms = nullptr;              // a region used only as form_factory
 
       // pools (index = pool id)
@@ -340,6 +342,7 @@ namespace {
                const bool stale = r.result.size() > 1 and r.result[0] == 'n' and std::stoul(r.result.substr(1)) < before;
                if (stale) continue;
                std::cout << sink.str();
+               c.made.push_back({e.key, inst, r.result, r.watermark, r.fresh_args});
             }
             else {
                std::cout << "# skipped " << e.key << ' ' << inst << " (every operand choice gave a node that existed before)\n";
@@ -806,8 +809,14 @@ static void register_container_entries()
    SCOPE_DECL(make_alias, "Expr", E) SCOPE_DECL(make_var, "Type", T) SCOPE_DECL(make_field, "Type", T) SCOPE_DECL(make_bitfield, "Type", T)
    SCOPE_DECL(make_typedecl, "Type", T) SCOPE_DECL(make_fundecl, "Function", FN) SCOPE_DECL(make_primary_template, "Forall", FA)
    SCOPE_DECL(make_secondary_template, "Forall", FA)
-   ENTRY("Scope::make_var(Name,Type)#redeclaration", auto& sc = r.fresh(r.c.unit.global_region()->make_subregion()->scope, "Scope"); auto& n = r.N(); auto& t = r.T();
-         auto& first = r.fresh(*sc.make_var(n, t), "Var"); (void) first; r.done(*sc.make_var(n, t));)
+#define SCOPE_REDECL(FN, SORT2, PICK2, KIND) \
+   ENTRY("Scope::" #FN "(Name," SORT2 ")#redeclaration", auto& sc = r.fresh(r.c.unit.global_region()->make_subregion()->scope, "Scope"); auto& n = r.N(); auto& t = r.PICK2(); \
+         auto& first = r.fresh(*sc.FN(n, t), KIND); (void) first; r.done(*sc.FN(n, t));)
+   // the second declaration of the same name and type in one scope (the `redeclare` path of every maker)
+   SCOPE_REDECL(make_alias, "Expr", E, "Alias") SCOPE_REDECL(make_var, "Type", T, "Var") SCOPE_REDECL(make_field, "Type", T, "Field")
+   SCOPE_REDECL(make_bitfield, "Type", T, "Bitfield") SCOPE_REDECL(make_typedecl, "Type", T, "Typedecl")
+   SCOPE_REDECL(make_fundecl, "Function", FN, "Fundecl") SCOPE_REDECL(make_primary_template, "Forall", FA, "Template")
+   SCOPE_REDECL(make_secondary_template, "Forall", FA, "Template")
    UDT_DECL(declare_alias, "Type", T) UDT_DECL(declare_field, "Type", T) UDT_DECL(declare_bitfield, "Type", T) UDT_DECL(declare_var, "Type", T)
    UDT_DECL(declare_type, "Type", T) UDT_DECL(declare_fun, "Function", FN) UDT_DECL(declare_primary_template, "Forall", FA)
    UDT_DECL(declare_secondary_template, "Forall", FA)
@@ -998,6 +1007,17 @@ int main(int argc, char** argv)
          bool found = false;
          for (auto& e : entries) if (e.key == key) { run_entry(c, e); found = true; }
          if (not found) std::cout << "X unknown-entry " << key << '\n';
+      }
+      else if (op == "recheck") {
+         // late re-observation: every node returned by a factory call is read again, after everything else was built
+         for (auto& m : c.made) {
+            if (m.result.size() < 2 or m.result[0] != 'n') continue;      // by-value results have no node to re-read
+            std::cout << "L " << m.key << ' ' << m.inst << ' ' << m.result << '\n';
+            std::set<std::string> seen;
+            for (auto& a : m.fresh_args) if (a != m.result) seen.insert(a);
+            print_closure(c, m.result, m.watermark, 2, seen);
+         }
+         std::cout << "LEND\n";
       }
       else if (op == "grow") {
          std::string kind;
